@@ -115,3 +115,66 @@ Definition GetExc_Spec (data : list A) (k size : Z) (out : list A) : Prop :=
   if zlen data <? k * size then out = data
   else exists l, Exc_Spec (zlen data) k size l /\ out = concat (map (iv_slice data) l).
 End GE.
+
+(* ---------- data_chunk on the yielded tuples: the statement on the data a consumer receives ---------- *)
+Section DC.
+Context {A : Type}.
+(* k is a contiguous sub-block of w *)
+Definition Infix (k w : list A) : Prop := exists a b, w = a ++ k ++ b.
+(* the kept blocks concatenate to exactly the data; each kept block is a contiguous sub-block of its
+   chunk's data; no chunk's data has more than cs rows *)
+Definition DC_Spec (data : list A) (cs : Z) (ps : list (part A)) : Prop :=
+  concat (map p_kept ps) = data /\
+  Forall (fun p => Infix (p_kept p) (p_whole p) /\ zlen (p_whole p) <= cs) ps.
+End DC.
+
+Fixpoint prefix_b (k w : list Z) : bool :=
+  match k, w with
+  | [], _ => true
+  | x :: k', y :: w' => (x =? y) && prefix_b k' w'
+  | _ :: _, [] => false
+  end.
+Fixpoint infix_b (k w : list Z) : bool :=
+  prefix_b k w || match w with [] => false | _ :: w' => infix_b k w' end.
+
+(* checker: DC_Spec on observed row numbers (the data is [0; 1; ...; n-1]) *)
+Definition dc_spec_b (n cs : Z) (ps : list (part Z)) : bool :=
+  zlist_eqb (concat (map p_kept ps)) (zrange 0 (Z.to_nat n)) &&
+  forallb (fun p => infix_b (p_kept p) (p_whole p) && (zlen (p_whole p) <=? cs)) ps.
+
+(* ---------- the regular shapes the code computes (closed forms) ---------- *)
+(* chunk_bounds: [ ceil(ov/2) | cs - ov | floor(ov/2) ] at stride cs - ov, except that the first chunk
+   keeps its left margin and the last, shorter chunk runs and keeps up to n *)
+Definition cb_full (cs ov i : Z) : chunk :=
+  let s := i * (cs - ov) in
+  mk s (s + cs) (if i =? 0 then 0 else s + (ov - ov / 2)) (s + cs - ov / 2).
+Definition cb_nfull (n cs ov : Z) : Z := 1 + Z.max 0 ((n - cs - 1) / (cs - ov)).
+Definition cb_regular (n cs ov : Z) : list chunk :=
+  let m := cb_nfull n cs ov in
+  let s := m * (cs - ov) in
+  map (cb_full cs ov) (zrange 0 (Z.to_nat m)) ++
+  (if s <? n then [mk s n (s + (ov - ov / 2)) n] else []).
+
+(* excerpts: min(k, ceil(n / step)) excerpts (start i * step, end min(start + size, n)) *)
+Definition exc_count (n k step : Z) : Z :=
+  if step =? 0 then (if 0 <? n then k else 0) else Z.min k ((n + step - 1) / step).
+Definition exc_regular (n k size : Z) : list iv :=
+  let step := Z.max ((n - size) / (k - 1)) size in
+  map (fun i => mkiv (i * step) (Z.min (i * step + size) n)) (zrange 0 (Z.to_nat (exc_count n k step))).
+
+(* ---------- checker for get_excerpts on observed row numbers ---------- *)
+(* greedy decomposition of an increasing index list into runs of consecutive indices of length at
+   most size: the least number of excerpts that can produce it *)
+Fixpoint ge_count (size prev cur : Z) (l : list Z) : option Z :=
+  match l with
+  | [] => Some 0
+  | x :: r => if (x =? prev + 1) && (cur <? size) then ge_count size x (cur + 1) r
+              else if prev <? x then option_map (Z.add 1) (ge_count size x 1 r) else None
+  end.
+Definition getexc_b (n k size : Z) (out : list Z) : bool :=
+  if n <? k * size then zlist_eqb out (zrange 0 (Z.to_nat n))
+  else forallb (fun x => (0 <=? x) && (x <? n)) out &&
+       match out with
+       | [] => true
+       | x :: r => match ge_count size x 1 r with Some c => c + 1 <=? k | None => false end
+       end.
